@@ -2,7 +2,8 @@
 
 Decides:
  F fork isolation   ParseOrElse::eval evaluates `this` and `that` exactly once each, on two distinct clones of the
-                    caller's state, never on the caller's state.
+                    caller's state, never on the caller's state.  Every return of ParseOrElse::eval passes this_or_that_picks_first, which is
+                    called after BOTH alternatives ran (no early verdict on one alternative's error).
  T adopt-one table  decision table of this_or_that_picks_first over (depth order) x (err_a) x (err_b) x
                     (nothing-consumed tie) x (pick_winner): which fork is swapped into the caller's state, what is
                     returned, and that save_conflicts(winner <- loser) runs when both succeeded on different items.
